@@ -272,6 +272,12 @@ def model (line : String) : String :=
     match VT.parse vt, ints [w, h, dw, dh] with
     | some v, some [w, h, dw, dh] => rszDump v (s == "b") w h dw dh
     | _, _ => "bad-op"
+  | ["rsub", vt, s, w, h, dw, dh, x1, y1, x2, y2, ang] =>
+    match VT.parse vt, ints [w, h, dw, dh], [x1, y1, x2, y2, ang].mapM fOfBits with
+    | some v, some [w, h, dw, dh], some [x1, y1, x2, y2, ang] =>
+      resFDump v (s == "b") w h dw dh
+        (M32.subimage x1 y1 x2 y2 (Float.ofInt dw) (Float.ofInt dh) (Float.cos (-ang)) (Float.sin (-ang)))
+    | _, _, _ => "bad-op"
   | ["resf", vt, s, w, h, dw, dh, a, b, c, d, e, f] =>
     match VT.parse vt, ints [w, h, dw, dh], [a, b, c, d, e, f].mapM fOfBits with
     | some v, some [w, h, dw, dh], some fs =>
@@ -597,6 +603,27 @@ def judge (op obs : String) : String :=
     | _, _, _ => fail "not-a-value"
   | ["resf", vt, _, w, h, dw, dh, _, _, _, _, _, _] => judgeResFloat vt w h dw dh obs
   | ["resg", vt, _, w, h, dw, dh, _, _, _, _, _, _] => judgeResFloat vt w h dw dh obs
+  | ["rsub", vt, _, w, h, dw, dh, _, _, _, _, _] =>
+    -- the property states no clause of its own for resample_subimage: per-pixel sampling (untouched, or within the source's range);
+    -- the matrix it builds is compared bit for bit through the model
+    let base := judgeResFloat vt w h dw dh (obs ++ " | " ++ obs)
+    if base != "ok" then base else
+    -- documented behaviour ("copy into the destination a rotated rectangular region from the source, rescaling it to fit"; theorem
+    -- C17_subimage_centre_corners): for every angle the destination's centre shows the centre of the source rectangle.  Judged when both
+    -- centres are pixels: dw, dh odd (>= 3) and the rectangle's centre has integer coordinates inside the source
+    match VT.parse vt, ints [w, h, dw, dh], (words op).drop 7 |>.mapM fOfBits with
+    | some v, some [w, h, dw, dh], some fs =>
+      match fs.mapM ratOfFloat with
+      | some [x1, y1, x2, y2, _] =>
+        let maxQ (a b : Rat) : Rat := if a < b then b else a
+        let cx := x1 + maxQ (x2 - x1 - 1) 1 / 2; let cy := y1 + maxQ (y2 - y1 - 1) 1 / 2
+        if dw % 2 = 1 ∧ dh % 2 = 1 ∧ dw ≥ 3 ∧ dh ≥ 3 ∧ cx.den = 1 ∧ cy.den = 1 ∧ 0 ≤ cx.num ∧ cx.num < w ∧ 0 ≤ cy.num ∧ cy.num < h then
+          let toks := words obs
+          let i := ((dh - 1) / 2 * dw + (dw - 1) / 2).toNat
+          if toks.getD i "" == pxToken v cx.num cy.num then "ok" else fail "subimage-centre"
+        else "ok"
+      | _ => fail "bad-op"
+    | _, _, _ => fail "bad-op"
   | ["rsz", vt, _, w, h, dw, dh] =>
     match VT.parse vt, ints [w, h, dw, dh] with
     | some v, some [w, h, dw, dh] =>
